@@ -58,6 +58,7 @@ class Mon:
         self.unspec = collections.Counter()
         self.accepted_invalid = collections.Counter()
         self.worst = 0.0
+        self.log = []           # (string, result) of every check() call: replayed on the other builds of the tree (variants pass)
 
     # -- well-formedness that holds for any accepted string --------------------------------------------
     def wellformed(self, r):
@@ -152,7 +153,61 @@ class Mon:
                 if w:
                     self.ck.violation('c07:unspecified-form-accepted-with-malformed-result:%s:%s' % (kind, w),
                                       'an unspecified form was accepted but the result is not a well-formed composition', dict(formula=s, returned=r))
+        self.log.append((b, r))
         return v, r
+
+
+def _res_key(r):
+    if isinstance(r, xl.Err):
+        return ('E', r.code, r.message)
+    return ('C', tuple(r['Elements']), tuple(x.hex() for x in r['nAtoms']), tuple(x.hex() for x in r['massFractions']), r['nAtomsAll'].hex(), r['molarMass'].hex())
+
+
+VARIANT_CHILD = r'''
+import sys, json
+sys.path.insert(0, %(verif)r)
+from xv import xl
+from xv.oracles.c07 import _res_key
+req = json.load(sys.stdin)
+X = xl.XL(req['config'], so=req['so'])
+out = []
+for s in req['strings']:
+    out.append(list(_res_key(X.parse(bytes.fromhex(s)))))
+sys.stdout.write(json.dumps(out))
+'''
+
+
+def variants_pass(ck, mon, rng, tier, st):
+    """the same strings through the library as the PROJECT builds it - default options, optimised without assertions (buildtype=release,
+    b_ndebug=true), plain char unsigned (the ABI of arm / ppc64le / s390x) - must give what the monitor's build gave, bit for bit and
+    message for message.  Each build is loaded in a process of its own (one libxrl per process)."""
+    log = mon.log
+    n = min(len(log), 40000 if tier == 'quick' else 400000)
+    idx = sorted(rng.sample(range(len(log)), n)) if n < len(log) else list(range(len(log)))
+    strings = [log[i][0] for i in idx]
+    want = [list(_res_key(log[i][1])) for i in idx]
+    st['variant_builds'] = {}
+    for pb in build.PROJECT_BUILDS:
+        so = build.meson_lib('shipped', variant=(pb[6:] or None))['so']
+        p = subprocess.run([sys.executable, '-c', VARIANT_CHILD % dict(verif=build.VERIF)], input=json.dumps(dict(config='shipped', so=so, strings=[x.hex() for x in strings])).encode(),
+                           stdout=subprocess.PIPE, stderr=subprocess.PIPE, env=dict(os.environ, LD_PRELOAD=build.hostile_host('shipped')['so']), timeout=3600)
+        if p.returncode != 0:
+            tail = p.stderr.decode('utf8', 'replace')[-400:]
+            if p.returncode < 0 or 'xv-hostile-host' in tail:
+                ck.violation('c07:project-build-dies:%s' % pb, 'parsing the string set kills the process in the library built by meson (%s): %s' % (pb, tail[-200:]), dict(build=pb, rc=p.returncode))
+                continue
+            raise common.Inconclusive('variant child failed on %s: %s' % (pb, tail))
+        got = json.loads(p.stdout.decode())
+        nbad = 0
+        for s_, w, g in zip(strings, want, got):
+            if json.loads(json.dumps(w)) != g:
+                nbad += 1
+                if nbad <= 3:
+                    ck.violation('c07:project-build-differs-from-the-monitor-build:%s:%s' % (pb[6:] or 'default', 'accepts-or-rejects-differently' if (w[0] != g[0]) else ('other-error' if w[0] == 'E' else 'other-composition')),
+                                 'CompoundParser(%r) gives %r in the library built by meson (%s) and %r in the monitor\'s build of the same sources' % (s_.decode('latin1'), g[:3], pb, w[:3]),
+                                 dict(formula=s_.decode('latin1'), project_build=g, monitor_build=w, build=pb))
+        st['variant_builds'][pb] = dict(strings=len(strings), differing=nbad)
+    return len(strings) * len(build.PROJECT_BUILDS)
 
 
 def same_composition(a, b):
@@ -249,12 +304,12 @@ sys.stdout.write(json.dumps(out))
 
 
 def locale_monitor(ck, formulas, st):
-    """formulas: list of latin-1 strings. Three fresh processes: C, C.utf8, xx_VERIF (comma decimal point)."""
+    """formulas: list of latin-1 strings. Four fresh processes: C, C.utf8, xx_VERIF (comma decimal point), xx_LATIN (bytes >= 0xC0 are letters)."""
     ld = build.locale_dir()
     env = {k: v for k, v in os.environ.items() if not (k.startswith('LC_') or k in ('LANG', 'LANGUAGE', 'LOCPATH'))}
     runs = {}
     procs = []
-    for name, loc, lp in (('C', None, None), ('C.utf8', 'C.utf8', None), ('xx_VERIF', 'xx_VERIF', ld)):
+    for name, loc, lp in (('C', None, None), ('C.utf8', 'C.utf8', None), ('xx_VERIF', 'xx_VERIF', ld), ('xx_LATIN', 'xx_LATIN', ld)):
         p = subprocess.Popen([sys.executable, '-c', LOCALE_CHILD % dict(verif=common.VERIF)], env=env, stdin=subprocess.PIPE,
                              stdout=subprocess.PIPE, stderr=subprocess.PIPE)
         procs.append((name, p, json.dumps(dict(config='shipped', locale=loc, locpath=lp, formulas=formulas))))
@@ -265,6 +320,8 @@ def locale_monitor(ck, formulas, st):
         runs[name] = json.loads(o.decode())
     if runs['C']['status'] != 'ok' or runs['C']['decimal_point'] != '.':
         raise common.Inconclusive('C-locale baseline child unusable: %r' % {k: v for k, v in runs['C'].items() if k != 'results'})
+    if runs['xx_LATIN']['status'] != 'ok':
+        raise common.Inconclusive('the synthetic Latin-1 locale could not be activated in the child: %r' % {k: v for k, v in runs['xx_LATIN'].items() if k != 'results'})
     x = runs['xx_VERIF']
     if x['status'] != 'ok' or x.get('decimal_point') != ',':
         raise common.Inconclusive('the synthetic comma-decimal locale could not be activated in the child: %r' % {k: v for k, v in x.items() if k != 'results'})
@@ -467,8 +524,12 @@ def main(tier):
     # (6) locale monitor -------------------------------------------------------------------------------------------------------
     st = dict(locale_calls=0)
     lf = [p for p in pool if '.' in p][:1500 if quick else 20000]
+    # bytes that are LETTERS in a single-byte national locale (islower / isupper / isalpha follow LC_CTYPE), right after a symbol letter and elsewhere
+    lf += ['H\xe9', 'Fe\xe92O3', 'H\xe92O', 'C\xe0', '\xc9', 'H\xc9', 'Si\xf62', 'Ca\xe9(OH)2', 'Ca(O\xe9H)2', 'N\xe3', 'Na\xe3Cl', 'H2\xe9', '(H\xfc)2', '\xe9H', 'O\xff2', 'Fe\xe9\xe8O']
     lf += ['H2.5O', 'C1.5H0.25', '(H2O)0.5', 'Fe0.95O', 'H2,5', 'H2,5O', 'H.', 'H0', 'Xx', '(H', 'H 2', 'Rf', 'H0.0', 'H2.5.1', 'H1.a', 'H.5', 'H5.', '()']
     base = locale_monitor(ck, lf, st)
+    # (7) the same strings through the project's own builds of the tree (default / release without assertions / unsigned char)
+    st['variant_calls'] = variants_pass(ck, mon, rng, tier, st)
     # the C-locale child must agree with the model too (ties the locale comparison to the truth, not just to itself)
     for s, a in zip(lf, base['results']):
         v = fm.classify(s)
@@ -485,7 +546,7 @@ def main(tier):
         raise common.Inconclusive('locale monitor saw only %d accepted fractional-subscript formulas' % n_frac)
     if n_add < N_ADD // 2:
         raise common.Inconclusive('add_compound_data exercised only %d times' % n_add)
-    cov = dict(evaluations=X.calls + st['locale_calls'], distinct_nontrivial=len(mon.shapes) + len(mon.msgs),
+    cov = dict(evaluations=X.calls + st['locale_calls'] + st['variant_calls'], strings_replayed_on_the_project_builds=st['variant_builds'], distinct_nontrivial=len(mon.shapes) + len(mon.msgs),
                rule='distinct shapes (nesting depth, group count, repeated-element pattern, subscript kinds of terms and groups) of generated VALID formulas '
                     'whose library composition was compared with the exact-rational model, plus distinct rejection messages seen',
                samples=mon.samples, exhaustive=False,
